@@ -464,6 +464,115 @@ def check_script_accounting(chk, F):
                                    "has_free_verify of %s is %r but its script ends in %r" % (v, hfv, last), where)
 
 
+# ---- R09.7 static figures vs the satisfactions the satisfier produces -------------------------------------------------
+
+def _measure_work(args):
+    import itertools
+    from .. import facts, textmodel as tm
+    from ..interp import Adt, Panic
+    from . import c06, c13, e2e, decoder
+    X = c13.X
+    F = facts.load()
+    text, ctx = args
+    out = []
+    try:
+        T_ = c06.Typer(F)
+        tr = tm.parse_tree(F, T_.m, text)
+        ri = T_.m.call_path(T_.root, [tr.fields["0"]])
+        st = "miniscript::private::Miniscript<std::string::String, %s>" % c06.CTX[ctx]
+        r = T_.m.call_callee({"def": "expression::FromTree::from_tree", "resolved": T_.ft, "name": "from_tree",
+                              "trait": "expression::FromTree",
+                              "resolved_container": "miniscript::<impl expression::FromTree for miniscript::private::Miniscript<Pk, Ctx>>",
+                              "self_ty": st, "targs": [st]}, [ri])
+        if not (isinstance(r, Adt) and r.variant == "Ok"):
+            return text, ctx, 0, [("skip", "not accepted by the parser")]
+        ms = r.fields["0"]
+        ext = ms.fields["ext"]
+        ast = X.parse(text)
+        # script size: announced (script_size and ext.pk_cost) vs the specification's script
+        real_len = decoder.Script(decoder.instructions(X.script(ast, ctx))).byte_len()
+        ss = [q for q in F.fns if q.endswith("miniscript::private::Miniscript::<Pk, Ctx>::script_size")]
+        if len(ss) == 1:
+            got = T_.m.call_callee({"def": ss[0], "resolved": ss[0], "name": "script_size", "targs": ["std::string::String", c06.CTX[ctx]]}, [ms])
+            if got != real_len:
+                out.append(("bad", "script_size() = %r, the script has %d bytes" % (got, real_len)))
+        if ext.fields["pk_cost"] != real_len:
+            out.append(("bad", "ext.pk_cost = %r, the script has %d bytes" % (ext.fields["pk_cost"], real_len)))
+        sd = ext.fields["sat_data"]
+        S = e2e.Sat(F)
+        mdl = e2e.to_model(F, ast, ctx)
+        keys, hashes = e2e.keys_hashes(ast)
+        n = 0
+
+        def elem_size(x):
+            if x == 0:
+                return 1
+            if x == 1:
+                return 2
+            ln = x.length
+            if getattr(x, "kind", "") == "sig":
+                ln = 72 if ctx != "tap" else 65          # low-S DER signature / Schnorr signature, incl. the sighash byte
+            return 1 + ln if ln < 253 else 3 + ln
+        worst = (0, 0, None)
+        for r_ in range(len(keys) + 1):
+            for ks in itertools.combinations(keys, r_):
+                for hs in ([set()] if not hashes else [set(), set(hashes)]):
+                    assets = {"keys": set(ks), "pre": set(hs), "older": lambda n_: True, "after": lambda n_: True}
+                    for mall in (False, True):
+                        n += 1
+                        sat = S.template(mdl, ctx, assets, mall)
+                        stk = sat.fields["stack"]
+                        if stk.variant != "Stack":
+                            continue
+                        w = e2e.placeholders(stk.fields["0"].items, ctx)
+                        cnt, size = len(w), sum(elem_size(x) for x in w)
+                        if sd.variant != "Some":
+                            out.append(("bad", "a satisfaction %r is produced although no satisfaction figures are announced" % (w,)))
+                            continue
+                        mc, msz = sd.fields["0"].fields["max_witness_stack_count"], sd.fields["0"].fields["max_witness_stack_size"]
+                        if cnt > mc:
+                            out.append(("bad", "witness %r has %d elements, announced maximum %r" % (w, cnt, mc)))
+                        if size > msz:
+                            out.append(("bad", "witness %r takes %d bytes, announced maximum %r" % (w, size, msz)))
+                        if len(out) > 3:
+                            return text, ctx, n, out
+        return text, ctx, n, out
+    except Unsupported as e:
+        return text, ctx, 0, [("unanalysable", "unanalysable: %s" % e)]
+    except Panic as e:
+        return text, ctx, 0, [("bad", "panic: %s" % e)]
+
+
+def check_measured(chk, F):
+    import multiprocessing as mp
+    import os as _os
+    from . import e2e
+    rid = "R09.7"
+    chk.rule(rid, "whole scripts (~60, both contexts), figures computed by evaluating the library's parser / type checker vs "
+                  "what the evaluated satisfier produces for every subset of keys x preimages x both modes: script_size() and "
+                  "ext.pk_cost equal the byte length of the specification's script; every produced witness has at most "
+                  "max_witness_stack_count elements and max_witness_stack_size bytes (ECDSA signatures 72, Schnorr 65 bytes incl. the sighash byte)")
+    with mp.Pool(min(16, _os.cpu_count() or 4)) as pool:
+        res = pool.map(_measure_work, list(e2e.FAMILY), chunksize=2)
+    n_scripts = n_cases = 0
+    for text, ctx, n, out in res:
+        kinds = set(k for k, _ in out)
+        if "skip" in kinds:
+            continue
+        key = "%s|%s" % (ctx, text)
+        n_scripts += 1
+        n_cases += n
+        if "unanalysable" in kinds:
+            chk.fail(rid, "unanalysable:" + key, out[0][1], kind="unanalysable")
+            continue
+        bad = [msg for k, msg in out if k == "bad"]
+        chk.obligation(rid, not bad, key, "%d discrepancy(ies); first: %s" % (len(bad), bad[0] if bad else ""),
+                       where="src/miniscript/types/extra_props.rs", detail=bad[:4])
+    chk.extra["R09.7_cases"] = n_cases
+    chk.floor(rid, "scripts measured", n_scripts, 50)
+    chk.floor(rid, "satisfier runs", n_cases, 400)
+
+
 def run(chk):
     F = chk.facts()
     chk.explanation = (
@@ -491,3 +600,4 @@ def run(chk):
     chk.guard("R09.6", "script_size", c04.check_sizes_shared,
               RuleAlias(chk, {"R04.1": "R09.6", "R04.2": "R09.6"}, "script_size, which the size limits and weight formulas "
                                                                    "use, equals the encoded length"), F)
+    chk.guard("R09.7", "measured", check_measured, chk, F)
